@@ -1069,7 +1069,9 @@ static Verdict runDet(const Case& c)
    {
       // solving the same unmodified object again after clearing its basis
       bool skip = false;
-      if(knownKey(K_WEIGHTS) && A->intParam(SoPlex::PRICER) == SoPlex::PRICER_QUICKSTEEP)
+      // (all pricers that keep norms / an activation state between solves: the automatic devex -> steepest-edge switch,
+      // devex, quick-start and exact steepest edge; seen with the default PRICER_AUTO as 14 vs 8 iterations)
+      if(knownKey(K_WEIGHTS) && A->intParam(SoPlex::PRICER) != SoPlex::PRICER_DANTZIG && A->intParam(SoPlex::PRICER) != SoPlex::PRICER_PARMULT)
       {
          skip = true;
          e.count(std::string("excluded_known.") + K_WEIGHTS);
